@@ -110,6 +110,8 @@ def plain(x):
         return {k: plain(v) for k, v in x.items()}
     if isinstance(x, (list, tuple)):
         return [plain(v) for v in x]
+    if isinstance(x, np.ndarray):
+        return ("ndarray", [plain(v) for v in x.tolist()])  # the TYPE is part of the comparison
     if isinstance(x, float) and math.isinf(x):
         return "inf"
     return x
@@ -253,6 +255,10 @@ def runner_worker(sub, item):
         # one the operators are indexed on
         g = list(ob["interpolation_xgrid"])
         ob["interpolation_xgrid"] = g[1::2] + g[0::2][::-1]
+    if (nf_ff + tmc + len(str(tgt))) % 3 == 0:
+        # a grid given as a numpy array (np.geomspace, ...): the card keeps the very object it came with
+        ob["interpolation_xgrid"] = np.array(ob["interpolation_xgrid"], dtype=float)
+    grid_obj = ob["interpolation_xgrid"]
     ids = set()
     wt, wo = wrap(th, ids), wrap(ob, ids)
     before = (plain(wt), plain(wo))
@@ -261,7 +267,8 @@ def runner_worker(sub, item):
     try:
         r = rmod.Runner(wt, wo)
         w_init = [x for x in WRITES if x[0] in ids]
-        sub.add(ob_eval(f"{name}/frame: __init__ writes nothing into the cards", not w_init and (plain(wt), plain(wo)) == before, kind="frame", detail=str(w_init[:3]), inputs={} if not w_init else {"writes": str(w_init[:5])}, replay={"confirmed": True}))
+        same_grid_object = isinstance(grid_obj, np.ndarray) is isinstance(dict.__getitem__(ob, "interpolation_xgrid"), np.ndarray) and type(dict.__getitem__(ob, "interpolation_xgrid")) is type(grid_obj)
+        sub.add(ob_eval(f"{name}/frame: __init__ writes nothing into the cards", not w_init and same_grid_object and (plain(wt), plain(wo)) == before, kind="frame", detail=str(w_init[:3]), inputs={} if not w_init else {"writes": str(w_init[:5])}, replay={"confirmed": True}))
         out = r._output
         pid = H.PROJECTILES[proj]
         echo = out.theory is wt and out.observables is wo and out["pids"] == br.flavor_basis_pids and out["projectilePID"] == pid
